@@ -355,6 +355,9 @@ type LegacyOpts struct {
 	// must block until the gateway finished its initial raw read for this
 	// connection id (hook event legacy.drained). nil = do not wait.
 	WaitDrained func(connID string) error
+	// Auth, if set, runs on each fresh connection before the channel request and
+	// returns extra headers for it (e.g. an NTLM exchange on that connection).
+	Auth func(hc *HConn, method string) (Hdr, error)
 	// SkipOut opens only the IN channel.
 	SkipOut bool
 	// Preamble bytes sent raw on IN after its accept (what the gateway's
@@ -377,6 +380,14 @@ func OpenLegacy(addr string, o LegacyOpts) (*TClient, *LegacyResult, error) {
 		}
 		hdr := Hdr{{"Rdg-Connection-Id", o.ConnID}, {"Accept", "*/*"}}
 		hdr = append(hdr, o.OutHeaders...)
+		if o.Auth != nil {
+			ah, err := o.Auth(hc, "RDG_OUT_DATA")
+			if err != nil {
+				hc.Close()
+				return nil, res, fmt.Errorf("auth on OUT: %w", err)
+			}
+			hdr = append(hdr, ah...)
+		}
 		r, err := hc.Do("RDG_OUT_DATA", GatewayPath, hdr, nil, 10*time.Second)
 		res.Out = r
 		if err != nil {
@@ -404,6 +415,15 @@ func OpenLegacy(addr string, o LegacyOpts) (*TClient, *LegacyResult, error) {
 	}
 	hdr := Hdr{{"Rdg-Connection-Id", inID}, {"Transfer-Encoding", "chunked"}}
 	hdr = append(hdr, o.InHeaders...)
+	if o.Auth != nil {
+		ah, err := o.Auth(hi, "RDG_IN_DATA")
+		if err != nil {
+			hi.Close()
+			t.Close()
+			return nil, res, fmt.Errorf("auth on IN: %w", err)
+		}
+		hdr = append(hdr, ah...)
+	}
 	// net/http drains (part of) an unread request body before it sends an early
 	// error reply, so a refusal only arrives once the body ended: when no
 	// answer comes promptly, end the (still empty) chunked body.
@@ -640,7 +660,7 @@ func (t *TClient) Snapshot() TSnapshot {
 func (t *TClient) CloseWrite() {
 	t.logf("c>", "FIN", 0)
 	c := t.upConn()
-	if tc, ok := c.(*net.TCPConn); ok {
+	if tc, ok := c.(interface{ CloseWrite() error }); ok {
 		tc.CloseWrite()
 	} else {
 		c.Close()
